@@ -6,6 +6,8 @@ import (
 	"fmt"
 	"math/rand"
 	"sort"
+	"sync"
+	"sync/atomic"
 
 	"github.com/RoaringBitmap/roaring/v2"
 	faiss "github.com/blevesearch/go-faiss"
@@ -41,6 +43,32 @@ func (f fieldStats) Store(stat, field string, v uint64) {
 func (f fieldStats) Aggregate(segment.FieldStats)        {}
 func (f fieldStats) Fetch() map[string]map[string]uint64 { return f }
 
+// recycled vector-postings iterators; each is owned by one goroutine at a time
+var (
+	vecItMu   sync.Mutex
+	vecItFree []segment.VecPostingsIterator
+	vecItTurn atomic.Int64
+)
+
+func takeVecIt() segment.VecPostingsIterator {
+	vecItMu.Lock()
+	defer vecItMu.Unlock()
+	if n := len(vecItFree); n > 0 && vecItTurn.Add(1)%3 != 0 {
+		it := vecItFree[n-1]
+		vecItFree = vecItFree[:n-1]
+		return it
+	}
+	return nil
+}
+
+func putVecIt(it segment.VecPostingsIterator) {
+	vecItMu.Lock()
+	defer vecItMu.Unlock()
+	if it != nil && len(vecItFree) < 8 {
+		vecItFree = append(vecItFree, it)
+	}
+}
+
 // vecQuery is one search configuration.
 type vecQuery struct {
 	q        []float32
@@ -74,7 +102,22 @@ func searchHandle(r *oracle.Report, tag string, idx segment.VectorIndex, vq vecQ
 		return nil, false
 	}
 	var out []vecPair
-	it := pl.Iterator(nil)
+	// iterator objects are recycled across searches (any result, empty ones
+	// included, any field, any segment); every other recycled one is first used
+	// for a walk that is abandoned after one hit
+	pre := takeVecIt()
+	if pre != nil {
+		r.Inc("vec_iterators_recycled", 1)
+	}
+	it := pl.Iterator(pre)
+	if pre != nil && vecItTurn.Add(1)%2 == 0 {
+		if _, err := it.Next(); err != nil {
+			r.Fail("vec-iter-err", "%s: %v", tag, err)
+		}
+		putVecIt(it)
+		it = pl.Iterator(nil)
+	}
+	defer func() { putVecIt(it) }()
 	for {
 		p, err := it.Next()
 		if err != nil {
